@@ -132,6 +132,8 @@ def Tables.moduleCoherent (t : Tables) (m : ModuleInfo) : Bool :=
         | some c => c.mod.beq m.key && c.version == (m.key.version : Int) && c.flexible == m.flexible
                     && c.apiKey == m.apiKey && c.headerIdx == m.headerIdx
                     && (c.idx == m.top || c.etype.beq .nested) && c.idx == ci
+                    -- the structures a class is built from are defined in the same module
+                    && c.refs.all (fun r => m.classes.contains r)
         | none => false)
     && apiPackageName (t.name top.nameId) == t.name m.key.api
     && ((m.key.kind.beq .request || m.key.kind.beq .response) == m.apiKey.isSome)
